@@ -169,12 +169,21 @@ def gen_case(rng, tier):
         if scope == "overall":
             return gen_value(rng, pool, loc, I, J, force)
         present = list(dict.fromkeys(keys_real))
-        d = {k: gen_value(rng, pool, loc, I, J, force) for k in present}
-        if rng.random() < 0.3:  # keys that do not occur in the data are harmless
-            extra = {"day": 400, "month": 13, "season": None}[scope]
-            if extra is not None:
-                d[extra] = gen_value(rng, pool, loc, I, J, force)
-        return d
+        keys = list(present)
+        # the dict usually covers MORE groups than the evaluated period contains (thresholds come from a reference
+        # period; the evaluated one is sub-annual / starts mid-year / lacks a season): all groups of the calendar, or
+        # a random set of absent ones (sorting before, between and after the present ones)
+        domain = {"day": list(range(1, 367)), "month": list(range(1, 13)), "season": list(SEASON_CODE)}[scope]
+        absent = [k for k in domain if k not in set(present)]
+        r = rng.random()
+        if r < 0.4:
+            keys += absent
+        elif r < 0.7 and absent:
+            keys += rng.sample(absent, rng.randint(1, len(absent)))
+        if rng.random() < 0.2 and scope != "season":  # a key outside the calendar is harmless too
+            keys.append({"day": 400, "month": 13}[scope])
+        rng.shuffle(keys)  # dict insertion order carries no meaning
+        return {k: gen_value(rng, pool, loc, I, J, force) for k in keys}
 
     v0 = spec()
     v1 = spec() if ty in ("between", "outside") else None
@@ -211,9 +220,41 @@ def gen_case(rng, tier):
                 minlen=minlen, force=force)
 
 
+def gen_big_case(data_seed, kind):
+    """more than 2**15 instances along one reduced axis (a long daily series at one location / one day on a large
+    grid): counts, probabilities, extents and intensities must be those of the Python integer count"""
+    rng = random.Random(data_seed)
+    if kind == "time":
+        I, J, T = 1, 1, 33000 + rng.randint(0, 1500)
+    else:
+        I, J, T = 190, 180, rng.choice([1, 2])
+    start = datetime.date(rng.randint(1900, 1960), 1, 1) + datetime.timedelta(days=rng.randint(0, 365))
+    time = np.array([start + datetime.timedelta(days=k) for k in range(T)], dtype=object)
+    n = T * I * J
+    nonneg = rng.random() < 0.5
+    vals = [Fraction(rng.randint(0 if nonneg else -256, 256), 64) for _ in range(n)]
+    x = np.array([float(v) for v in vals]).reshape(T, I, J)
+    pool = sorted(set(vals))
+    ty = rng.choice(["higher", "lower", "outside"])
+    scope = rng.choice(["overall", "month"]) if kind == "time" else "overall"
+    keys_real, codes = groups_of(time, scope)
+    # (nearly) everything is an instance: the threshold sits at the extreme values of the data
+    lo, hi = pool[1], pool[-2]
+    one = {"higher": lo, "lower": hi, "outside": hi}[ty]
+    two = hi if ty == "outside" else None  # outside [hi, hi]: everything but the ties with hi
+    def spec(v):
+        return v if scope == "overall" else {k: v for k in range(1, 13)}
+    return dict(I=I, J=J, T=T, tkind="big-" + kind, order="sorted", time=time, style="nonneg" if nonneg else "dyadic", vals=vals, x=x,
+                ty=ty, loc="global", scope=scope, v0=spec(one), v1=None if two is None else spec(two), codes=codes,
+                keys_real=keys_real, code_of=lambda k: int(k), time_none=False, expect_error=None, minlen=0, force=None,
+                big=kind, data_seed=data_seed)
+
+
 def describe(case, with_data=True):
     d = {k: case[k] for k in ("I", "J", "T", "tkind", "order", "style", "ty", "loc", "scope", "time_none", "expect_error", "minlen")}
     d["time_first"] = str(case["time"][0])
+    if case.get("big"):
+        d["big"], d["data_seed"] = case["big"], case["data_seed"]
     d["threshold_value"] = enc_spec(case["scope"], case["loc"], case["v0"], case["code_of"]) + (
         "" if case["v1"] is None else " , " + enc_spec(case["scope"], case["loc"], case["v1"], case["code_of"]))
     if with_data and case["T"] * case["I"] * case["J"] <= 120:
@@ -329,6 +370,14 @@ def oracle(case, out):
         bad.append(("instances_def", f"instances differ from the defining comparison at {k[:3].tolist()} ({k.shape[0]} entries)"))
         return bad
     n = int(ref.sum())
+    # counting with the returned array (what calculate_exceedance_probability / spatial extent / intensity and
+    # ibicus.evaluate.multivariate do with it) must give the Python integer counts, whatever its dtype
+    with np.errstate(all="ignore"):
+        cnt_t = [int(v) for v in np.einsum("ijk -> jk", inst).ravel()]
+        cnt_s = [int(v) for v in np.einsum("ijk -> i", inst).ravel()]
+    if cnt_t != [int(v) for v in ref.sum(axis=0).ravel()] or cnt_s != [int(v) for v in ref.sum(axis=(1, 2))]:
+        bad.append(("instances_count", f"reducing the instance array (dtype {inst.dtype}) does not give the number of instances: "
+                    f"per-location counts {cnt_t[:3]}, per-step counts {cnt_s[:3]}, true total {n}"))
     if not np.array_equal(out["filt"], np.where(ref == 1, x, 0.0)):
         bad.append(("accumulative_filter", "filter_threshold_exceedances is not (value where the condition is met, 0 elsewhere)"))
     if not np.allclose(out["prob"], ref.mean(axis=0), rtol=0, atol=1e-12):
@@ -614,6 +663,23 @@ def run(tier, res, force_search=False):
         lines.append(driver_line(case, out))
         expect.append(("all", case, out))
 
+    # ---- large counts: > 2**15 instances along a reduced axis (oracle on the real code only; the driver is not
+    #      used here because the executable model is quadratic in the length of the time axis)
+    big_kinds = ["time", "grid"] if tier == "quick" else ["time", "grid", "time", "grid", "time", "grid"]
+    for kind in big_kinds:
+        case = gen_big_case(rng.randint(0, 10**9), kind)
+        out, probs = run_real(case, make_metric(case))
+        desc = describe(case)
+        size = case["T"] * case["I"] * case["J"]
+        for kd, p in probs:
+            problems_all.append((kd, p, desc, size))
+        for kd, b in oracle(case, out):
+            problems_all.append((kd, b, desc, size))
+        inst = out["inst"]
+        res.count(("big", kind, case["ty"], case["scope"]), True,
+                  sample={**describe(case, with_data=False), "instances": int(inst.sum(dtype=np.int64)) if isinstance(inst, np.ndarray) else inst})
+        res.extra["big_cases"] = res.extra.get("big_cases", 0) + 1
+
     # ---- quantile-defined metrics
     for k in range(n_q):
         qc = gen_qcase(rng, tier)
@@ -719,6 +785,15 @@ def replay(data):
         if not probs:
             print("  the recorded input no longer fails")
         return 1 if probs else 0
+    if fi and fi.get("big"):
+        case = gen_big_case(fi["data_seed"], fi["big"])
+        out, probs = run_real(case, make_metric(case))
+        bad = [p for _, p in probs] + [b for _, b in oracle(case, out)]
+        for b in bad:
+            print("  still failing:", b)
+        if not bad:
+            print("  the recorded input no longer fails")
+        return 1 if bad else 0
     if not fi or "data" not in fi or "time" not in fi or "threshold_value" not in fi:
         print("replay: the recorded case carries no explicit data (large case); re-run ./check C19 with the recorded seed")
         return 2
